@@ -441,3 +441,19 @@ Proof.
     try (eapply Hn; [eassumption|reflexivity]; fail);
     try (eapply Hn; [eassumption|apply cfs_regs]; fail).
 Qed.
+
+(** an aborted CALL moves at most the round-robin cursor of the matched registration *)
+Lemma mregs_call_abort : forall lk d caller req opts proc oracle,
+    mregs d -> mregs (call_abort_dealer lk d caller req opts proc oracle).
+Proof.
+  intros lk d caller req opts proc oracle H. unfold call_abort_dealer.
+  destruct (match_procedure d proc oracle) as [rg|] eqn:Hm; [|exact H].
+  destruct (reg_callees rg) eqn:Ec; [exact H|]. rewrite <- Ec.
+  destruct (opt_bool opts "progress" && _); [exact H|].
+  destruct (cget (d_bycall d) (s_id caller, req)); [exact H|].
+  destruct (select_callee rg oracle) as [[cid next]|]; [|exact H].
+  destruct (lk cid); [|exact H].
+  destruct (match_procedure_stored d proc oracle rg Hm) as (id & Hr).
+  eapply mregs_nset; [exact H|reflexivity|]. cbn [reg_callees]. intros Hin.
+  destruct (H id rg Hr Hin) as (A & B & C). repeat split; assumption.
+Qed.
